@@ -264,17 +264,39 @@ func c09Target(c *Ctx) {
 		var https, http, nScheme int
 		var okHostURL, okHost bool
 		nHostURL, nHost := 0, 0
-		EachInstr(fn, func(in ssa.Instruction) {
+		// the function and the helpers of the package it hands the request to (directToTarget(req), ...)
+		eachInstr := func(f func(ssa.Instruction)) {
+			for _, g := range FindFuncs(fn, 2, func(*ssa.Function) bool { return true }) {
+				EachInstr(g, f)
+			}
+		}
+		eachInstr(func(in ssa.Instruction) {
 			if v, ok := storeExact(in, "URL", "Scheme"); ok {
-				nScheme++
-				s, _ := ConstString(v)
-				ssl := HasBoolFact(BoolFactsAt(in), IsFieldLoadPred("GunConfig", "SSL"), true)
-				nossl := HasBoolFact(BoolFactsAt(in), IsFieldLoadPred("GunConfig", "SSL"), false)
-				if s == "https" && ssl {
-					https++
+				// the alternatives of the stored value with the facts under which each is chosen:
+				// a constant under the branch facts, or the edges of a phi (scheme := "http"; if ssl { scheme = "https" })
+				type alt struct {
+					v     ssa.Value
+					facts []BoolFact
 				}
-				if s == "http" && nossl {
-					http++
+				var alts []alt
+				if phi, isPhi := v.(*ssa.Phi); isPhi {
+					for i, e := range phi.Edges {
+						alts = append(alts, alt{e, EdgeFacts(phi.Block().Preds[i], phi.Block())})
+					}
+				} else {
+					alts = append(alts, alt{v, BoolFactsAt(in)})
+				}
+				for _, a := range alts {
+					nScheme++
+					s, _ := ConstString(a.v)
+					ssl := HasBoolFact(a.facts, IsFieldLoadPred("GunConfig", "SSL"), true)
+					nossl := HasBoolFact(a.facts, IsFieldLoadPred("GunConfig", "SSL"), false)
+					if s == "https" && ssl {
+						https++
+					}
+					if s == "http" && nossl {
+						http++
+					}
 				}
 			}
 			if v, ok := storeExact(in, "URL", "Host"); ok {
